@@ -267,6 +267,22 @@ def run_config(c):
         sup_zero_before = bool(not np.any(sup.field))
         if c.get("always_return"):
             opts["always_return"] = True
+    if c.get("prelude"):
+        # the very same Model object was solved before (same frequency) with
+        # other material values, which were then restored by an in-place edit
+        # or through the setters: the recorded solve sees the CURRENT model
+        saved = {k: getattr(model, k).copy() for k in (
+            "property_x", "property_y", "property_z", "mu_r", "epsilon_r")
+            if getattr(model, k) is not None}
+        for k, v in saved.items():
+            getattr(model, k)[...] = v*(3.0 if k.startswith("prop") else 1.5)
+        emg3d.solve(model, sfield, sslsolver=False, semicoarsening=False,
+                    linerelaxation=False, cycle='V', maxit=1, verb=0)
+        for k, v in saved.items():
+            if c["prelude"] == "inplace":
+                getattr(model, k)[...] = v
+            else:
+                setattr(model, k, v)
     rec = SolveRecorder(o).install(sup if dtype_ok else None)
     err = None
     out = None
